@@ -50,7 +50,7 @@ PROPS["C15"] = dict(
         "the capacity-limited store is a consumer whose failure is a sink error value",
         "coq/C15/Bulk.v: the provided bulk methods (insert_all, remove_all, remove_matching, retain_matching, add_to_graph/add_to_dataset) on journaling set/bag stores reached directly and through adapters (GraphAsDataset, DatasetGraph, &mut), and serializers over writers failing in write and/or flush combined with a failing source (first-failure rule)",
     ],
-    assumptions=["closures given to adapters are pure functions of the item (the harness uses such closures)",
+    assumptions=["closures given to adapters are functions of the item and of their own call history (Direct.v models stateful closures by their call logs); Model.v's older theorems take them as pure functions of the item",
                  "documents are valid UTF-8 (the parser is fed from &str / String bytes); ErrorKind::Interrupted is not modelled for writers"],
 )
 
@@ -88,7 +88,7 @@ PROPS["C10"] = dict(
     extra=[extras.c10_miri],
     runs=[dict(bin="c10")],
     quick=dict(n=400, shards=16),
-    thorough=dict(n=20000, shards=128, run_timeout=3000, coq_case_timeout=3000),
+    thorough=dict(n=20000, shards=128, run_timeout=3000, coq_case_timeout=3000, args=["--thorough-sizes"]),
     trusted_base=[
         "ownership model coq/C10/Model.v of inmem/src/index.rs with three designs under clone_mode: Owned = the current code after /repo 20c1ef6 (t2i keys and i2t entries each own their strings; Clone copies both), Rebuilt = the previous code (i2t entries pointed into the keys, Clone rebuilt them), Derived = the original derived Clone; Drop, moves, growth, bulk constructors, clone_from, mem::take/replace/swap and terms cloned OUT of a store (escaped_clone_safe; the old designs are refuted: derived_clone_refuted, term_clone_escapes_refuted) (hand-written)",
         "hook SimpleTermIndex::verif_audit / verif_term_index (cfg sophia_verif) reports, per index, whether i2t[i] holds the term of the key mapped to i (an owned copy with the same text, or a borrow of that very key); the harness compares it with the model's audit",
@@ -136,10 +136,13 @@ PROPS["C14"] = dict(
         "model coq/C14/Model.v of order_by/cmp_bindings_with (exec.rs), sparql_cmp/sparql_order_by/order_by_class (expression.rs), SparqlValue::partial_cmp/order_by_class/order_by_cmp (value.rs), SparqlNumber coercing comparison and exact_cmp (_number.rs), XsdDateTime partial_cmp/timeline_cmp (hand-written); Term::cmp from Common/Term.v (C02)",
         "lexical form -> value (Rust integer/float parsers, BigDecimal, dateTime regex + chrono) is not modelled: each pool term is given to the model with the value the implementation parsed (Debug rendering of ResultTerm::value())",
         "slice::sort_unstable_by returns a sorted permutation when the comparator is a total preorder (std contract); the harness checks permutation + sortedness of every output",
-        "independent oracle in c14.rs: SPARQL '<' from XSD lexical forms (exact decimal strings, promotion by Rust's correctly rounded str->f64/f32, XSD dateTime partial order)",
+        "independent oracle in c14.rs: SPARQL '<' from XSD lexical forms (exact decimal strings, promotion by Rust's correctly rounded str->f64/f32, XSD dateTime partial order); (x) a promotion never crosses a float (exact decimal arithmetic on digit strings, f64/f32::next_up/next_down)",
+        "integer/decimal -> f64/f32 promotions (coerce_to_double / coerce_to_float): coq/C14/Rounding.v defines round-to-nearest-even into binary64/binary32 from scratch on Z/Q (no Flocq, no axiom) and RoundingProofs.v proves it monotone, the identity on the format, hence conv_ok; coq/C14/Engine.v models the engine's promotions as that function: `isize as f64/f32` is the IEEE-754 hardware conversion, str::parse::<f64/f32> (Rust's dec2flt, used for BigInt and Decimal since the fixes 9d45a4d / 20e135a) is correctly rounded -- both trusted and compared bit for bit with c64_round / c32_round on every conversion case (kinds v:*); BigInt::to_string / BigDecimal::as_bigint_and_exponent print the exact digits",
+        "the library routines used before those fixes (num-bigint 0.4.8 BigUint::to_f64/to_f32, bigdecimal 0.4.10 BigDecimal::to_f64, num-traits to_f32 via f64, compiler-builtins __powidf2) are transcribed in Engine.v as c64_prefix / c32_prefix for the refutation witnesses only; the transcription was tied bit for bit to the pre-fix tree (400 conversions, 0 disagreements) and is no longer reachable through the engine",
+        "a finite float is printed by the harness as (sign, integer significand < 2^53 / 2^24, exponent of the last place): in_format_b holds of every printed float (checked in every conversion case); the theorems ask in_format of the floats of the items",
     ],
     assumptions=[
-        "integer/decimal -> f64/f32 conversions used by the operator '<' never cross a number of the target format (conv_ok; holds for IEEE round-to-nearest; not proved for `as f64`, BigInt::to_f64, BigDecimal::to_f64)",
+        "floats carried by xsd:double / xsd:float items are numbers of binary64 / binary32 (item_fmt_ieee; true of every f64 / f32)",
         "terms are well-formed (C02) and a parsed value is only attached to a literal",
     ],
 )
@@ -223,7 +226,7 @@ PROPS["C13"] = dict(
 
 PROPS["C12"] = dict(
     level="proof", runs=[dict(bin="c12")],
-    quick=dict(n=3250, shards=16),
+    quick=dict(n=3430, shards=16),
     thorough=dict(n=100000, shards=128, run_timeout=3000, coq_case_timeout=3000),
     trusted_base=[
         "model coq/C12/Model.v of jsonld/src/serializer/engine.rs (after the fix: commits), util_traits.rs filters and the three options (hand-written; hash maps as association lists, vector index = (graph,id) pair); fuel = number of nodes for mark/cells/convert: for cells/convert proved sufficient (cells_stable, L_le_nodes; the round-trip theorem is about the fuelled functions themselves), for mark argued (the Rust loop climbs distinct nodes), anchoring fuel proved irrelevant; coq/C12/Calls.v: the serializer object (one fresh engine per call, writer targets append, the jsonifier keeps the last document, InvalidJsonLiteral aborts the call)",
